@@ -14,7 +14,8 @@ open Util
 let errno_code = function
   | "EIO" -> 5 | "EINTR" -> 4 | "EAGAIN" -> 11 | "EBADF" -> 9 | "ENOSPC" -> 28 | "EPIPE" -> 32
   | "EACCES" -> 13 | "EMFILE" -> 24 | "ENOENT" -> 2 | "EISDIR" -> 21 | "EFBIG" -> 27 | "EDQUOT" -> 122
-  | "EINVAL" -> 22 | "ENOMEM" -> 12 | "0" -> 0 | _ -> 5
+  | "EINVAL" -> 22 | "ENOMEM" -> 12 | "ENOTDIR" -> 20 | "ENAMETOOLONG" -> 36 | "EROFS" -> 30 | "ELOOP" -> 40
+  | "0" -> 0 | _ -> 5
 
 let parse_sched (s : string) : xfer list =
   if s = "-" then [] else
@@ -129,6 +130,24 @@ let run line =
         String.concat "," (List.map (fun (k, c) ->
             Printf.sprintf "%c=%s" (Char.chr (int_of_z (List.hd k))) (hex_of_bytes c)) !fs) in
     String.concat " | " (outs @ [Printf.sprintf "end 0 %s" dump])
+  | ["N"; kind; what; en; _name] ->
+    (* the model decides result, that a message is set, the calls; what the message SAYS
+       (terminated, names the file, carries the errno text) is observed on the C side only *)
+    let sched = [Err (z_of_int (errno_code en))] in
+    if kind = "r" then begin
+      let ((r, opens), closes) = object_from_file (what = "x") stand_in app_ok (rpad sched []) [] in
+      match r with
+      | RRet o -> Printf.sprintf "N %s %s ? ? ? %s %s %s %s" (match o.r_obj with JNull -> "NULL" | _ -> "TREE")
+                    (b01 (o.r_msg <> MNone)) (string_of_z o.r_reads) (string_of_z opens) (string_of_z closes) (string_of_z o.r_live)
+      | _ -> "N NORETURN"
+    end else begin
+      let ser = bytes_of_hex "74727565" in
+      let ((r, opens), closes) = object_to_file_ext (what = "x") (wpad sched ser) false (Some ser) in
+      match r with
+      | WRet (rc, msg, _, calls) -> Printf.sprintf "N %s %s ? ? ? %s %s %s 0" (string_of_z rc) (b01 msg)
+                                      (string_of_z calls) (string_of_z opens) (string_of_z closes)
+      | _ -> "N NORETURN"
+    end
   | ["S"; _; _] -> "S ?"
   | _ -> failwith "fd line"
 
